@@ -1262,6 +1262,30 @@ def register(I):
             return r
         h.__name__ = "prim_" + opname
         return h
+    def checked(opname):
+        def h(I, st, args, info):
+            m = re.search(r"<impl ([ui]\d+|usize|isize)>", info.path.text)
+            ty = m.group(1) if m else None
+            if ty is None:
+                raise Unsupported("checked arithmetic type: " + info.path.text)
+            a, b = deref_all(I, args[0], st), deref_all(I, args[1], st)
+            r, ov = I.binop(opname + "WithOverflow", a, b, ty)
+            if ov is True:
+                return OPT_NONE
+            if ov is False:
+                return opt_some(r)
+            return Outcomes([(b_not(ov), opt_some(r)), (ov, OPT_NONE)])
+        h.__name__ = "checked_" + opname
+        return h
+    for ty_ in ("u8", "u16", "u32", "u64", "usize", "i32", "i64"):
+        R["<impl %s>::checked_mul" % ty_] = checked("Mul")
+        R["<impl %s>::checked_add" % ty_] = checked("Add")
+        R["<impl %s>::checked_sub" % ty_] = checked("Sub")
+
+    @reg("RangeInclusive::new")
+    def range_incl_new(I, st, args, info):
+        return Struct("RangeInclusive", ("start", "end"), (args[0], args[1]))
+
     R["Mul::mul"] = arith("Mul", "attempt to multiply with overflow")
     R["Add::add"] = arith("Add", "attempt to add with overflow")
     R["Sub::sub"] = arith("Sub", "attempt to subtract with overflow")
